@@ -3,6 +3,7 @@ C16 — The receive path reassembles the byte stream independent of chunking.
 Model: `Model/PhyRx.lean` (generic `ProfibusPhy` helpers over a byte buffer).
 -/
 import ProfiVerif.Lemmas.PhyRx
+import ProfiVerif.Model.Simulator
 
 namespace PV.C16
 open PV
@@ -191,5 +192,72 @@ theorem resync (garbage : Bytes) (hg : deserialize garbage = .reject) (t : Teleg
   have h2 : receiveAll t.wire = .done [] [(t, true)] true := by
     simp [receiveAll, hk, receiveAllFuel, hdec]
   simp [runRx, stepRx, h1, h2]
+
+/-! ### Simulator PHY: timed byte availability (`SimulatorBus::current_cursor`)
+
+What the receivers of the simulator bus can see is always a prefix of the transmitted stream, grows
+monotonically with bus time, never shows a character before its 11 bit times are over and shows the
+whole telegram from the moment its last character is over — at every baud rate.  So the arrivals over
+the simulator are a chunking of the stream, the situation `reassembly` is about. -/
+
+open Sim
+
+/-- More time, at least as many visible characters. -/
+theorem sim_visible_mono (rate e e' len : Nat) (h : e ≤ e') :
+    visibleChars rate e len ≤ visibleChars rate e' len := by
+  unfold visibleChars timeToBits
+  have h1 : e * rate / 1000000 ≤ e' * rate / 1000000 := Nat.div_le_div_right (Nat.mul_le_mul_right rate h)
+  have h2 : e * rate / 1000000 / 11 ≤ e' * rate / 1000000 / 11 := Nat.div_le_div_right h1
+  omega
+
+/-- No character is visible before its 11 bit times have passed. -/
+theorem sim_not_early (rate e len : Nat) : visibleChars rate e len * 11 ≤ timeToBits rate e := by
+  unfold visibleChars
+  have := Nat.div_mul_le_self (timeToBits rate e) 11
+  have hm : min (timeToBits rate e / 11) len ≤ timeToBits rate e / 11 := Nat.min_le_left _ _
+  calc min (timeToBits rate e / 11) len * 11 ≤ timeToBits rate e / 11 * 11 := Nat.mul_le_mul_right 11 hm
+    _ ≤ timeToBits rate e := this
+
+/-- The whole telegram is visible exactly from the moment `11 · len` bit times have passed. -/
+theorem sim_complete_iff (rate e len : Nat) :
+    visibleChars rate e len = len ↔ 11 * len ≤ timeToBits rate e := by
+  unfold visibleChars
+  constructor
+  · intro h
+    have h1 : len ≤ timeToBits rate e / 11 := by omega
+    have := Nat.div_mul_le_self (timeToBits rate e) 11
+    omega
+  · intro h
+    have : len ≤ timeToBits rate e / 11 := by
+      rw [Nat.le_div_iff_mul_le (by decide)]; omega
+    omega
+
+/-- The visible bytes are a prefix of the transmitted stream (`done ++ cur`). -/
+theorem sim_visible_prefix (b : Bus) : ∃ rest, b.visible ++ rest = b.done ++ b.cur := by
+  refine ⟨b.cur.drop (visibleChars b.rate b.elapsed b.cur.length), ?_⟩
+  unfold Bus.visible
+  rw [List.append_assoc, List.take_append_drop]
+
+/-- The cursor is the length of the visible prefix. -/
+theorem sim_cursor_eq (b : Bus) : b.cursor = b.visible.length := by
+  unfold Bus.cursor Bus.visible
+  rw [List.length_append, List.length_take]
+  have : visibleChars b.rate b.elapsed b.cur.length ≤ b.cur.length := Nat.min_le_right _ _
+  omega
+
+/-- Advancing bus time only extends what is visible: the earlier visible bytes stay a prefix. -/
+theorem sim_advance_extends (b : Bus) (us : Nat) : ∃ more, (b.advance us).visible = b.visible ++ more := by
+  have hm := sim_visible_mono b.rate b.elapsed (b.elapsed + us) b.cur.length (Nat.le_add_right _ _)
+  refine ⟨(b.cur.take (visibleChars b.rate (b.elapsed + us) b.cur.length)).drop (visibleChars b.rate b.elapsed b.cur.length), ?_⟩
+  unfold Bus.visible Bus.advance
+  simp only
+  rw [List.append_assoc]
+  congr 1
+  have : b.cur.take (visibleChars b.rate b.elapsed b.cur.length) =
+      (b.cur.take (visibleChars b.rate (b.elapsed + us) b.cur.length)).take (visibleChars b.rate b.elapsed b.cur.length) := by
+    rw [List.take_take, Nat.min_eq_left hm]
+  rw [this, List.take_append_drop]
+
+example : visibleChars 1500000 22 6 = 3 ∧ visibleChars 19200 572 3 = 0 ∧ visibleChars 19200 573 3 = 1 := by decide
 
 end PV.C16
